@@ -6,6 +6,7 @@ executed.  Python stdlib only.
 """
 import json
 import os
+import re
 import sys
 from collections import defaultdict, deque
 
@@ -789,6 +790,61 @@ def split_path(path):
 # Crate / Facts
 
 
+
+_BARE_PARAM = re.compile(r"^[A-Z][A-Za-z0-9]*$")
+_PRIMS = {"u8", "u16", "u32", "u64", "u128", "usize", "i8", "i16", "i32", "i64", "i128", "isize", "bool", "char",
+          "str", "f32", "f64", "mut", "const", "dyn", "fn", "unsafe", "extern"}
+_LIFETIME = re.compile(r"'[A-Za-z_][A-Za-z0-9_]*\s*")
+_IDENT = re.compile(r"(?<![A-Za-z0-9_:])([A-Za-z_][A-Za-z0-9_]*)(?!\s*::|[A-Za-z0-9_])")
+
+
+def _norm_ty(ty):
+    return _LIFETIME.sub("", ty).replace(" ", "")
+
+
+def _strip_generics(t):
+    out, d = [], 0
+    for ch in t:
+        if ch == "<":
+            d += 1
+        elif ch == ">":
+            d -= 1
+        elif d == 0:
+            out.append(ch)
+    return "".join(out)
+
+
+def _ty_clash(a, b):
+    """two printed concrete types that cannot be the same type (differences confined to generic
+    argument lists are not trusted: defaulted parameters may be elided by the printer)"""
+    na, nb = _norm_ty(a), _norm_ty(b)
+    return na != nb and _strip_generics(na) != _strip_generics(nb)
+
+
+def _is_concrete_ty(ty):
+    """no type parameter, `Self`, projection, placeholder or opaque type inside the printed type"""
+    if not ty:
+        return False
+    t = _LIFETIME.sub("", ty)
+    if " as " in t or "impl " in t or "_" == t.strip() or "{" in t:
+        return False
+    for m in _IDENT.finditer(t):
+        w = m.group(1)
+        # last path segment of a def path is preceded by '::' and excluded by the look-behind
+        if w in _PRIMS or w.isdigit():
+            continue
+        return False
+    return True
+
+
+def _subst_ty(ty, sub):
+    if not ty or not sub:
+        return ty
+    def r(m):
+        return sub.get(m.group(1), m.group(1))
+    return _IDENT.sub(r, ty)
+
+
 class Crate:
     def __init__(self, name, raw):
         self.name = name
@@ -986,6 +1042,110 @@ class Facts:
                     parent[g] = f
                     if g in self._bodies_raw:
                         dq.append(g)
+        return parent
+
+    # ---------------- context-sensitive reachability (Self / blanket-impl parameter binding)
+    def _concrete(self, ty):
+        return _is_concrete_ty(ty)
+
+    def _entry_bind(self, callee, selfty):
+        """binding of the callee's `Self` (trait default method) or blanket-impl parameter"""
+        e = self.fns.get(callee)
+        if e is None or selfty is None or not _is_concrete_ty(selfty):
+            return ()
+        if e.get("in_trait"):
+            return (("Self", _norm_ty(selfty)),)
+        st = e.get("self_ty")
+        if st and _BARE_PARAM.match(st):
+            return ((st, _norm_ty(selfty)),)
+        return ()
+
+    def callees_ctx(self, body, c, bind):
+        """[(callee, bind')] for one call under a caller binding.  Resolved calls go to their
+        resolution; an unresolved trait-method call is narrowed, soundly, (1) to the impls for the
+        concrete Self type when the caller's binding makes the receiver type concrete and such an
+        impl exists, else (2) by dropping impls whose declared parameter types are concrete and
+        differ from the (substituted) argument types at the call; anything else is plain CHA."""
+        if c.indirect:
+            return []
+        sub = dict(bind)
+        selfty = _subst_ty(c.selfty, sub) if c.selfty else None
+        if c.res and c.rk in ("item", "closure_once", "reify", "fnptr"):
+            return [(c.res, self._entry_bind(c.res, selfty))]
+        out = []
+        if not c.trait:
+            return [(c.decl, ())]
+        cands = list(self.trait_impls.get(c.decl, ()))
+        narrowed = None
+        if selfty and _is_concrete_ty(selfty):
+            ns = _norm_ty(selfty)
+            exact = [i for i in cands if _norm_ty(self.fns[i].get("self_ty") or "") == ns]
+            blanket = [i for i in cands if _BARE_PARAM.match(self.fns[i].get("self_ty") or "")]
+            if exact:
+                narrowed = exact + blanket
+        if narrowed is None:
+            argtys = []
+            for a in c.args:
+                pl = op_place(a)
+                if pl is not None and not pl[1]:
+                    argtys.append(_subst_ty(body.local_ty(pl[0]), sub))
+                else:
+                    argtys.append(None)
+            keep = []
+            for i in cands:
+                ins = self.fns[i].get("inputs") or []
+                clash = False
+                for at, it in zip(argtys, ins):
+                    if at and it and _is_concrete_ty(at) and _is_concrete_ty(it) and _ty_clash(at, it):
+                        clash = True
+                        break
+                if not clash:
+                    keep.append(i)
+            narrowed = keep
+            out.append((c.decl, self._entry_bind(c.decl, selfty)))   # trait default body, if any
+        elif c.decl in self._bodies_raw:
+            # an impl for the concrete type exists and overrides this very item
+            pass
+        for i in narrowed:
+            out.append((i, self._entry_bind(i, selfty)))
+        return out
+
+    def reachable_ctx(self, entries, stop=None):
+        """like reachable(), but follows calls per (function, binding) context; returns fn -> parent"""
+        parent = {}
+        seen = set()
+        dq = deque()
+        for e in entries:
+            if (e, ()) not in seen:
+                seen.add((e, ()))
+                parent.setdefault(e, None)
+                dq.append((e, ()))
+        while dq:
+            f, bind = dq.popleft()
+            if stop and stop(f):
+                continue
+            b = self.body(f)
+            if b is None:
+                continue
+            nxt = []
+            for c in b.calls:
+                nxt.extend(self.callees_ctx(b, c, bind))
+                for a in c.args:
+                    k = op_const(a)
+                    if k is not None and "fn" in k:
+                        nxt.append((k.get("res") or k["fn"], ()))
+                        if k.get("trait") and not k.get("res"):
+                            for impl_fn in self.trait_impls.get(k["fn"], ()):
+                                nxt.append((impl_fn, ()))
+            for ch in self.closure_children(f):
+                nxt.append((ch, bind))
+            for g, gb in nxt:
+                if g not in parent:
+                    parent[g] = f
+                if (g, gb) not in seen:
+                    seen.add((g, gb))
+                    if g in self._bodies_raw:
+                        dq.append((g, gb))
         return parent
 
     def call_path(self, parent, f):
